@@ -4,5 +4,5 @@ CONSTANTS
   MethodPrefixFails = FALSE
   ContentLengthThrows = FALSE
 SPECIFICATION Spec
-INVARIANTS Total ConsumedBounded ResumableExactly SegmentationIndependent BufferIsTheUnconsumedBytes
+INVARIANTS StreamsAreWellFormed Total ConsumedBounded ResumableExactly SegmentationIndependent BufferIsTheUnconsumedBytes
 CHECK_DEADLOCK FALSE
